@@ -311,6 +311,10 @@ theorem step_trust (env : Env) (hadv : env.advInvalid = true) (s : State) (sp : 
         exact blockInvalid_trust s sp sp hT hash (fun _ _ => rfl) (fun e' he' => by rw [hsp] at he'; cases he')
       | some e0 =>
         simp only
+        by_cases hpn : panics s (keyOf hash) = true
+        · simp only [hpn, ↓reduceIte]
+          rw [blockInvalid_panics s hash hpn]; exact hT
+        simp only [hpn, Bool.false_eq_true, ↓reduceIte]
         have htaint : Trust (blockInvalid s hash).1 { isOpen := true, m := AL.set sp.m (keyOf hash) { e0 with tainted := true } } := by
           refine blockInvalid_trust s sp _ hT hash (fun k' hne => by simp only [AL.get_set, if_neg hne]) ?_
           intro e' he'
